@@ -37,21 +37,26 @@ def body(chk, db, cfgname):
         ctx = Ctx(f, db)
         from pv.loops import loop_shape
         site = "Pomerol::TermList<GreensFunctionPart::Term>::operator()/%d" % len(f.params)
-        good = False
-        for j, n in f.walk(f.body):
-            if n["k"] == "for":
-                shp = loop_shape(f, ctx, j)
-                if shp["kind"] == "iter" and shp["bound"] == fld("Pomerol::TermList::data") and no_early_exit(shp):
-                    for jj, nn in f.walk(shp["body"]):
-                        if nn["k"] == "call" and nn["ck"] == "op" and nn.get("op") == "+=":
-                            rk = ctx.key(nn["args"][1], inline=False)
-                            want_args = tuple(("param", p["d"], p["n"]) for p in f.params)
-                            if rk[0] == "op" and rk[1] == "()" and rk[2] in (("op", "*", shp["var"]), ("un", "*", shp["var"])) and tuple(rk[3:]) == want_args:
-                                good = True
-        if good:
-            r2.ok(site, f.loc(), "res += (*it)(args) over all terms", cfgname)
+        from pv.loops import sum_over, is_element
+        data = fld("Pomerol::TermList::data")
+        so = sum_over(f, ctx, data)
+        if so["status"] == "partial":
+            r2.bad(site, f.loc(so["node"]), "does not add the value of every stored term: " + so["why"], cfgname)
+            continue
+        if so["status"] != "ok" or so.get("filtered"):
+            r2.unknown(site, f.loc(), "the sum over the stored terms is written in a form that is not analysed (%s)" % (so.get("why") or "terms are filtered"), cfgname)
+            continue
+        rk = ctx.key(so["term"], inline=True)
+        want_args = tuple(("param", p["d"], p["n"]) for p in f.params)
+        if not (so["zero"] and so["returned"]):
+            r2.bad(site, f.loc(so["acc"]), "the accumulated sum over the terms does not start from zero or is not what is returned", cfgname)
+        elif rk[0] == "op" and rk[1] == "()" and is_element(rk[2], so["loop"], data):
+            if tuple(rk[3:]) == want_args:
+                r2.ok(site, f.loc(), "res += (*it)(args) over all terms", cfgname)
+            else:
+                r2.bad(site, f.loc(so["acc"]), "the terms are evaluated at %s, not at the arguments of the call in their order" % (tuple(str(a[-1]) if a[0] == "param" else str(a) for a in rk[3:]),), cfgname)
         else:
-            r2.bad(site, f.loc(), "does not add the value of every stored term at the given arguments", cfgname)
+            r2.unknown(site, f.loc(so["acc"]), "what is added per stored term is not the term's operator() (form not analysed)", cfgname)
     # Vanishing
     p = db.fn(GF + "::prepare", nparams=0)
     pctx = Ctx(p, db)
